@@ -9,6 +9,10 @@ claimed={
  "C05":("exploration","3.C05",SIM+"independent byte-level recomputation of pool/tick aggregates after every transaction)","After every landed transaction the pool liquidity and every tick's net/gross/initialized flag are recomputed from the position accounts with the simulator's own decoders, for both tick-array encodings. Sampling over histories."),
  "C07":("exploration","3.C07",SIM+"exact rational shadow ledger of per-step LP fees vs credited fee_owed)","An exact rational shadow ledger distributes each traced swap step's LP fee over the positions in range at that step; every credit to a position is bounded above by its exact share and below by the share minus bounded rounding (overflow carve-out as documented), including accumulators fast-forwarded to just below wrap-around and ticks (de)initialised by other actors. Sampling over histories."),
  "C08":("exploration","3.C08",SIM+"balance-delta oracle with exact big-integer amounts, bound-edge forks, add-then-remove forks)","Instruction-level: every landed liquidity instruction (Pinocchio live path; the Anchor twin is compared in C12) is checked from balance deltas against exact amounts and rounding directions, with max/min edge cases and add-then-remove replayed on forks. The all-inputs quantifier over the pure conversion functions is not covered by this technique; only states that histories reach."),
+ "C10":("exploration","3.C10",SIM+"crossed-tick trace vs abstract tick set; packaging faults on the account list replayed on forks)","For every landed swap the ticks the trace reports as crossed must be exactly the initialized ticks between the current tick before and after, in order, each once, with the implied liquidity; half of the single swaps are replayed on forks under packaging faults (permute, duplicate/omit, supplemental arrays, named-vs-existing-empty arrays, foreign array). Fixed-vs-dynamic independence is C13's twin run. Sampling over reached tick layouts."),
+ "C12":("exploration","3.C12",SIM+"whole-instruction differential: live Pinocchio routing vs the Anchor implementation on forks; entrypoint vs public handlers)","Every landed increase/decrease (v1, v2), successful or not and also under injected CPI failures, is re-executed on a fork through the Anchor implementation that is still in the tree and compared byte for byte (all accounts and lamports, CPI sequence, event, error code); every whirlpool instruction runs through both the real entrypoint and the public handlers. By-token-amounts and reposition have no Anchor twin in the tree: their results are checked against the exact oracle in C08 instead. Sampling over reached account contents, not all byte contents."),
+ "C13":("exploration","3.C13",SIM+"encoding well-formedness walk, accessor agreement and fixed/dynamic/mixed twin runs of the same seed)","After every landed instruction each touched dynamic array is validated from raw bytes and Anchor's dynamic accessors are compared with the fixed accessors on the decoded content for all 88 slots; each seed is additionally run with fixed, dynamic and mixed arrays and all outcomes and observable states must be equal (this exercises the Pinocchio accessors, which are private, through the live instructions). The exhaustive-subset part of the quantifier is enumeration and is not covered; update orders are sampled."),
+ "C17":("exploration","3.C17",SIM+"two-hop vs its two single swaps replayed on forks)","Every landed two-hop (v1, v2; successful or not) is replayed on a fork of its pre-state as two single swaps with matching intermediate amount; success equivalence, byte equality of all pool-side accounts and equality of the trader's balances are required. Sampling over pool-state pairs."),
  "C06":("exploration","3.C06",SIM+"per-step swap trace reconciled with exact big-integer arithmetic, balances and events)","The per-step trace of every landed swap (hook H1) is accepted only if it chains pre-state to post-state, then each step's curve amounts, fee, protocol share and LP growth increment are recomputed exactly and reconciled with account deltas, vault balances and the Traded event; protocol-fee collections are checked to pay exactly what is owed and reset it. Sampling over reached states."),
 }
 notes={
@@ -17,6 +21,10 @@ notes={
  "C05":"runtime stub; positions and arrays are found by scanning program-owned accounts; tick->price conversion is not involved",
  "C07":"hook H1 trace (validated by C06/C10 style chaining); attribution assumes C05 (a step whose liquidity is not the sum of in-range positions is skipped and recorded, never alarmed here)",
  "C08":"plain SPL pools; tick->sqrt-price from the program; reached states only (not the full input domain of the pure functions)",
+ "C10":"hook H1 trace for the crossed ticks; abstract tick set from position accounts (C05); an omitted array may legitimately yield a different success (extra step boundary, rounding) - such a variant is only required not to skip initialized ticks",
+ "C12":"the Anchor handlers are driven through try_accounts/Context/exit exactly as the #[program] macro would; framework-level error codes of the two account-validation styles are not compared",
+ "C13":"Pinocchio accessors are private and reached only through instructions (twin runs + C12); idempotent dynamic initialisation is disabled in twin runs; the two initialisers' error codes for an existing array differ by design",
+ "C17":"plain SPL pools; the trader's token accounts for v2 are found by scanning for accounts of the authority",
  "C06":"hook H1 trace is treated as a claim (must chain and reconcile with balances); tick->sqrt-price from the program; plain SPL pools for balance equalities",
 }
 na={
